@@ -422,6 +422,41 @@ func c11GraphCases(r *Run, id *int) []c11Case {
 			cases = append(cases, c11Case{ID: *id, Family: "cycle-shapes", Files: files, Entry: e, Page: "f0.vuego", Data: "slice"})
 		}
 	}
+	// slot rings: k named slots handed to a layout (or to a component), the content of slot i uses the slot
+	// f(i) - every function f from the k slots to the k slots or to nothing, so every ring, chain and
+	// self-reference among up to three slots - and the host uses the first slot (once or twice)
+	for k := 1; k <= 3; k++ {
+		total := 1
+		for i := 0; i < k; i++ {
+			total *= k + 1
+		}
+		for code := 0; code < total; code++ {
+			var sb strings.Builder
+			c := code
+			for i := 0; i < k; i++ {
+				f := c % (k + 1)
+				c /= k + 1
+				sb.WriteString(fmt.Sprintf(`<template #s%d><i>c%d</i>`, i, i))
+				if f < k {
+					sb.WriteString(fmt.Sprintf(`<slot name="s%d">fb%d</slot>`, f, f))
+				}
+				sb.WriteString(`</template>`)
+			}
+			use := `<aside><slot name="s0">none</slot></aside>`
+			if code%2 == 1 {
+				use += `<footer><slot name="s0"></slot><slot name="s1">n1</slot></footer>`
+			}
+			hosts := []map[string]string{
+				{"f0.vuego": "---\nlayout: base\n---\n<p>x</p>" + sb.String(), "layouts/base.vuego": `<main v-html="content"></main>` + use},
+				{"f0.vuego": `<template include="comp.vuego">` + sb.String() + `</template>`, "comp.vuego": `<section>` + use + `</section>`},
+				{"f0.vuego": "---\nlayout: base\n---\n<p>x</p>" + sb.String(), "layouts/base.vuego": `<main v-html="content"></main><template include="comp.vuego"><template #s0><slot name="s0"></slot></template></template>`, "comp.vuego": `<section>` + use + `</section>`},
+			}
+			for hi, files := range hosts {
+				*id++
+				cases = append(cases, c11Case{ID: *id, Family: "slot-rings", Files: files, Entry: []string{"load", "vue"}[(code+hi)%2], Page: "f0.vuego", Data: "string"})
+			}
+		}
+	}
 	return cases
 }
 
@@ -576,7 +611,7 @@ func init() { streams["C11"] = runC11 }
 
 func runC11(r *Run) {
 	r.Imports = []string{"Model.Depth"}
-	r.Rule("isolated worker processes (64 MB maximum stack, address-space limit, 4 s per case): (include-graph) every include graph over 3 files with 0-2 includes per file, includes placed plainly, inside v-for and inside v-if, entered through Load.Render, Vue.Render and RenderFragment; (cycle-shapes) cycles through slot content, slot fallbacks, layouts and nested named slots; (slot-shapes) 11 kinds of supplied slot content (text, element, <template v-html / v-if / v-for / v-text>, wrapper, include) x 6 ways a component uses the slot once, twice or three times x default / named; " +
+	r.Rule("isolated worker processes (64 MB maximum stack, address-space limit, 4 s per case): (include-graph) every include graph over 3 files with 0-2 includes per file, includes placed plainly, inside v-for and inside v-if, entered through Load.Render, Vue.Render and RenderFragment; (cycle-shapes) cycles through slot content, slot fallbacks, layouts and nested named slots; (slot-rings) up to three named slots handed to a layout, to a component, or through a layout to a component, the content of each using any other (every ring, chain and self-reference); (slot-shapes) 11 kinds of supplied slot content (text, element, <template v-html / v-if / v-for / v-text>, wrapper, include) x 6 ways a component uses the slot once, twice or three times x default / named; " +
 		"(wrong-type) 32 directive positions x 39 data values (every kind: nil pointers, typed nil, unexported fields, non-string map keys, functions, channels, panicking Stringer, deep and cyclic structs / maps / slices); (root-data) each value as the root data; (functions) panicking, nil, non-function, wrong-arity, multi-result template functions as filters and calls; (bytes) spliced, token-soup and random byte strings as template sources and front-matter. " +
 		"Outcome must be ok or error: a panic reaching the caller, a timeout or a dead worker is a violation")
 	id := 0
